@@ -101,6 +101,7 @@ ROLE_OF.update(
         f"{PBW}._map_nested_impl": (f"{PBW}.map_nested", ("Iterator",)),
         f"{CREATION}._like_args": (f"{CREATION}.zeros_like", ("chunks", "spec", "dtype")),
         f"{PLAN}.Plan._create_lazy_zarr_arrays": (f"{PLAN}.Plan._finalize", ("LazyZarrArray", "create_zarr_arrays")),
+        f"{PLAN}.delete_on_exit": (f"{PLAN}.intermediate_store", ("atexit", "rmtree")),
     }
 )
 
